@@ -38,6 +38,10 @@ var c19Pool = []string{
 	"find all 'a' $ 'b'",
 	"find all --( never closed",
 	"find all @/(x)(y)(z/",
+	"find all 'q' @/a|/",
+	"find all @/[ab/",
+	"find all\n\n  @/(a|/",
+	"find all @/x\\/",
 	"find all at least 'a'",
 	"find all @/(a)(b)\\3/",
 	"set p to pattern 'a' or 'b' begin return 1 end\nfind all p",
